@@ -8,6 +8,7 @@ package anytype
 import (
 	"math"
 	"strconv"
+	"strings"
 )
 
 /*
@@ -383,7 +384,12 @@ func (ego *atFloat) serialize() string {
 	if abs >= math.Pow10(6) || (abs > 0 && abs <= math.Pow10(-6)) {
 		return strconv.FormatFloat(val, 'e', -1, 64)
 	}
-	return strconv.FormatFloat(val, 'f', -1, 64)
+	str := strconv.FormatFloat(val, 'f', -1, 64)
+	if !math.IsNaN(val) && !strings.Contains(str, ".") {
+		// a whole-valued float keeps its fraction, otherwise it would be parsed back as an int
+		str += ".0"
+	}
+	return str
 }
 
 /*
